@@ -52,6 +52,9 @@ type chunkJob struct {
 }
 
 func runChunkJob(res *Result, j *chunkJob, ref obsSummary) {
+	if res.saturated("C09") {
+		return
+	}
 	src := newSource(j.data, j.plan, j.dflt, nil, j.wd)
 	obs := runStream(src, &stack.Opts{}, 64)
 	a := summarize(obs)
